@@ -7,7 +7,9 @@ Transcription of `Variable.__init__` (lines 54-123), `Variable.__call__` (125-14
 ## Values
 
 `V := int i | str s | seq isTuple l | dict slots` — what a context can hold here: opaque scalars
-(`int`), strings, Python lists (`seq false`) and tuples (`seq true`), and dictionaries.  As in
+(`int`: Python ints, and — encoded by the harness as codes beyond `±10⁶` — `None`, `True`/`False` and floats, which
+the transcribed code observes only through truthiness, hashability and "is not a str/list/dict", exactly like an
+int; codes `≤ -10⁶` are the falsy ones), strings, Python lists (`seq false`) and tuples (`seq true`), and dictionaries.  As in
 `Model/Val.lean` **a dictionary is a slot vector over the key alphabet of the case**
 (`names : List String`, the sorted strings that occur as keys or as `type` values in a case):
 slot `i` holds the binding of key `names[i]`, `none` = key absent.  Structural equality therefore is
@@ -116,7 +118,7 @@ instance instDecidableEq : DecidableEq V := fun a b =>
 
 /-- `bool(v)`: non-zero number, non-empty string / list / tuple / dictionary -/
 def truthy : V → Bool
-  | int i => i != 0
+  | int i => i != 0 && decide (-1000000 < i)   -- codes `≤ -10⁶` are the falsy opaque scalars `None`, `False`, `0.0`
   | str s => s != ""
   | seq _ l => !l.isEmpty
   | dict l => l.any Option.isSome
@@ -302,6 +304,24 @@ structure Variable (D : Type) where
 inductive Value (D : Type) where
   | bare (d : D)
   | pair (d : D) (ctx : Slots)
+
+/-- raw Python data as getters receive and return it: a number, a tuple, or (inside a tuple) a dictionary -/
+inductive Raw where
+  | int (i : Int)
+  | tuple (l : List Raw)
+  | dict (s : Slots)
+
+/-- `lena.flow._has_context(value)` (`lena/flow/functions.py` 48-56): a tuple of length 2 whose second element is a
+dictionary -/
+def hasContext : Raw → Bool
+  | .tuple [_, .dict _] => true
+  | _ => false
+
+/-- how `get_data_context` reads a raw value: `(value[0], value[1])` if `_has_context(value)`, else a value without
+context (lines 42-45) -/
+def rawValue : Raw → Value Raw
+  | .tuple [d, .dict c] => .pair d c
+  | r => .bare r
 
 /-- `lena.flow.get_data_context(value)`: `(value, {})` for a value without context -/
 def getDataContext {D : Type} : Value D → D × Slots
